@@ -45,7 +45,12 @@ class ThermochemGroupAdditive(ThermochemBase):
             Map from :class:`Group` to int specifying counts of each group in
             the chemical structure.
         """
-        self.name = lib.name
+        # The chemical structure these groups were determined for (used for
+        # the entropy of the elements): taken from the mapping itself when it
+        # carries one, else the structure last decomposed by the library.
+        self.name = getattr(groups, 'name', None)
+        if self.name is None:
+            self.name = getattr(lib, 'name', None)
         self.correlations = []
         common_min = None
         common_max = None
